@@ -90,6 +90,17 @@ def run(chk, facts, tier):
                 continue
             req = ops[0] if ops else None
             ok = req is not None and spec['response'].get(req) == rn and ln == spec['length'].get(rn)
+            if ok:
+                # the request must be answered whenever opcode and length match: no further condition except the frozen ones
+                ALLOWED = {'LL_VERSION_IND': {'version_indication_received_'}, 'LL_START_ENC_RSP': {'start_encryption_requested_'}}
+                for i, br in enclosing_ifs(c):
+                    cond = i.child('cond')
+                    if mentions(cond, req):
+                        extra = {x.n for x in cond.walk() if x.k in REF_KINDS and x.n and x.n not in ('opcode', 'size', req) and not x.n.startswith('LL_') and x.n not in ('LinkLayer', 'LL')}
+                        extra -= ALLOWED.get(req, set())
+                        if extra:
+                            ok = False
+                            rn = rn + ' only if ' + ', '.join(sorted(extra))
             chk.instance('responses', fn, '%s -> %s (length field %s)' % (req, rn, ln), ok, '' if ok else 'specification: %s is answered by %s with length %s' % (req, spec['response'].get(req), spec['length'].get(spec['response'].get(req, ''), '?')), node=c, key='%s->%s' % (req, rn))
     # never answered
     for fn in handlers:
